@@ -85,10 +85,10 @@ theorem exists_regDepth_eq_depth (seq : List Op) (hne : seq ≠ []) (hregs : ∀
 /-- **`CircuitDepth` on any circuit satisfying DagInv** with plain operations and at least one register: for any
     schedule `L` of the circuit and any value `Lp` meeting the recorded specification of `nx.dag_longest_path_length`,
     `depth = Lp − 1` is the largest ASAP layer of the scheduled operation list -/
-theorem circuitDepth_eq_spec_sched {c : Dag} {P : Paths} {L : List (NodeId × Op)} (g : Good c P) (hpl : AllPlain c)
+theorem circuitDepth_eq_spec_sched_of {c : Dag} {P : Paths} {L : List (NodeId × Op)} (g : Good c P) (hk : NoInputKey c)
     (hS : Sched c P L) (hne : c.nodeIds ≠ []) {Lp : Nat} (hLp : LongestPathSpec c Lp) :
     circuitDepthWith Lp = (Spec.depth (L.map (·.2)) : Int) := by
-  have hkey := hS.input_not_key g hpl
+  have hkey := hS.input_not_key_of hk
   obtain ⟨hd1, hd2⟩ := sched_depth g hS hkey
   unfold circuitDepthWith
   apply depth_of_allDepth _ _ _ _ hLp
@@ -141,7 +141,9 @@ theorem circuitDepth_eq_spec_sched {c : Dag} {P : Paths} {L : List (NodeId × Op
     · have hne' : L.map (·.2) ≠ [] := by simpa using hLn
       have hregs : ∀ o ∈ L.map (·.2), opRegs o ≠ [] := by
         intro o ho
-        have hwf := (hS.wf_plain g hpl o ho).1
+        obtain ⟨p, hp, rfl⟩ := List.mem_map.mp ho
+        obtain ⟨i, o', _, hm, hpo⟩ := hS.op_node hp
+        have hwf : OpWF p.2 := hpo ▸ wiredOp_wf (g.inv.op_wf i o' hm)
         unfold opRegs; intro h
         exact hwf.qregs_ne (List.append_eq_nil_iff.mp h).1
       obtain ⟨o, ho, r, hr, heq⟩ := exists_regDepth_eq_depth (L.map (·.2)) hne' hregs
@@ -153,6 +155,12 @@ theorem circuitDepth_eq_spec_sched {c : Dag} {P : Paths} {L : List (NodeId × Op
     cases w with
     | nil => omega
     | snoc _ hxb => exact (E_nodes g.inv hxb).2
+
+/-- … in particular on circuits with plain operations -/
+theorem circuitDepth_eq_spec_sched {c : Dag} {P : Paths} {L : List (NodeId × Op)} (g : Good c P) (hpl : AllPlain c)
+    (hS : Sched c P L) (hne : c.nodeIds ≠ []) {Lp : Nat} (hLp : LongestPathSpec c Lp) :
+    circuitDepthWith Lp = (Spec.depth (L.map (·.2)) : Int) :=
+  circuitDepth_eq_spec_sched_of g (noInputKey_of_allPlain g hpl) hS hne hLp
 
 end Metrics
 end Graphiq
